@@ -62,6 +62,11 @@ pub fn channel<T>(cap: Option<usize>, is_flume: bool) -> (Tx<T>, Rx<T>) {
         Some(0) => 1,
         Some(c) => c,
     };
+    if cap != usize::MAX && !is_flume {
+        // crossbeam's bounded channel allocates every slot when it is created: the request itself is an
+        // allocation whose size the program chose (recorded before the capacity-cap fault shrinks it)
+        sched::note_capacity_request(cap);
+    }
     if cap != usize::MAX {
         if let Some(limit) = sched::cap_limit() {
             cap = cap.min(limit.max(1));
